@@ -282,10 +282,10 @@ impl FromStr for NarrowPeak {
             name: parse_name(&mut fields)?,
             score: parse_score(&mut fields)?,
             strand: parse_strand(&mut fields)?,
-            signal_value: fields.next().unwrap().parse().unwrap(),
-            p_value: parse_pvalue(&mut fields).unwrap(),
-            q_value: parse_pvalue(&mut fields).unwrap(),
-            peak: fields.next().unwrap().parse().unwrap(),
+            signal_value: parse_field(&mut fields, "signalValue")?,
+            p_value: parse_pvalue(&mut fields, "pValue")?,
+            q_value: parse_pvalue(&mut fields, "qValue")?,
+            peak: parse_field(&mut fields, "peak")?,
         })
     }
 }
@@ -372,9 +372,9 @@ impl FromStr for BroadPeak {
             name: parse_name(&mut fields)?,
             score: parse_score(&mut fields)?,
             strand: parse_strand(&mut fields)?,
-            signal_value: fields.next().unwrap().parse().unwrap(),
-            p_value: parse_pvalue(&mut fields).unwrap(),
-            q_value: parse_pvalue(&mut fields).unwrap(),
+            signal_value: parse_field(&mut fields, "signalValue")?,
+            p_value: parse_pvalue(&mut fields, "pValue")?,
+            q_value: parse_pvalue(&mut fields, "qValue")?,
         })
     }
 }
@@ -452,7 +452,7 @@ where
             chrom: parse_chrom(&mut fields)?.to_string(),
             start: parse_start(&mut fields)?,
             end: parse_end(&mut fields)?,
-            value: fields.next().unwrap().parse().unwrap(),
+            value: parse_field(&mut fields, "value")?,
         })
     }
 }
@@ -525,17 +525,23 @@ where
         })
 }
 
-fn parse_pvalue<'a, I>(fields: &mut I) -> Result<Option<f64>, ParseError>
+fn parse_field<'a, I, T>(fields: &mut I, name: &'static str) -> Result<T, ParseError>
 where
     I: Iterator<Item = &'a str>,
+    T: FromStr,
 {
     fields
         .next()
-        .ok_or(ParseError::MissingScore)
-        .and_then(|s| {
-            let p = s.parse().unwrap();
-            if p < 0.0 { Ok(None) } else { Ok(Some(p)) }
-        })
+        .ok_or(ParseError::MissingField(name))
+        .and_then(|s| s.parse().map_err(|_| ParseError::InvalidField(name, s.to_string())))
+}
+
+fn parse_pvalue<'a, I>(fields: &mut I, name: &'static str) -> Result<Option<f64>, ParseError>
+where
+    I: Iterator<Item = &'a str>,
+{
+    let p: f64 = parse_field(fields, name)?;
+    if p < 0.0 { Ok(None) } else { Ok(Some(p)) }
 }
 
 /// An error returned when a raw BED record fails to parse.
@@ -561,6 +567,10 @@ pub enum ParseError {
     MissingStrand,
     /// The strand is invalid.
     InvalidStrand(strand::ParseError),
+    /// A format-specific column (signalValue, pValue, qValue, peak, value) is missing.
+    MissingField(&'static str),
+    /// A format-specific column is invalid.
+    InvalidField(&'static str, String),
 }
 
 #[cfg(test)]
